@@ -9,6 +9,13 @@ def tasks(tier, seed):
 def extra(led, tier, seed):
     from contracts import tree_print
     led.extend(tree_print.rejection_table())
+    led.extend(tree_print.native_end_to_end(seed))
+    # the printed tree is compared with Tree.predict: the model's predict must BE tree_.predict on the user's columns, and fit must
+    # have grown tree_ on those same columns (features of tree_ index the validated data, nothing dropped or reordered)
+    from contracts import predict_glue, kauri_fit
+    led.extend(o for o in predict_glue.obligations() if o.name.startswith("Kauri.predict"))
+    led.extend(o for o in kauri_fit.obligations() if o.name.startswith("Kauri.fit:") and any(k in o.name for k in (
+        "find_best_split(kernel(X, y), X", "left = samples of the chosen leaf", "tree: _add_child", "the split handed to the tree", "a fresh Tree()")))
     # the printed tree is compared with predict: predict itself must give integer-typed / float32 points the cluster of their float64 copy
     from contracts import dtype_native
     led.extend(dtype_native.predict_dtypes(seed, only=("Kauri",)))
